@@ -73,4 +73,39 @@ theorem getElem?_pop' (a : Array α) (i : Nat) : a.pop[i]? = if i < a.size - 1 t
 theorem back?_eq (a : Array α) : a.back? = a[a.size - 1]? := by
   simp [Array.back?]
 
+/-! ## the capacity request -/
+
+theorem reserveC_of_lt {n : Nat} (h : n < capLimit) : reserveC n = .ok () := by
+  unfold reserveC; rw [if_neg (by omega)]; rfl
+
+theorem reserveC_of_ge {n : Nat} (h : capLimit ≤ n) : reserveC n = .error .capacity := by
+  unfold reserveC; rw [if_pos h]
+
+/-- `reserveC` has two outcomes: the request is granted (no effect) or it is the capacity-overflow panic -/
+theorem reserveC_cases (n : Nat) : (n < capLimit ∧ reserveC n = .ok ()) ∨ (capLimit ≤ n ∧ reserveC n = .error .capacity) := by
+  by_cases h : n < capLimit
+  · exact .inl ⟨h, reserveC_of_lt h⟩
+  · exact .inr ⟨by omega, reserveC_of_ge (by omega)⟩
+
+theorem reserveC_zero : reserveC 0 = .ok () := reserveC_of_lt (by decide)
+
+/-- the capped pre-allocation of the deserializer is always granted -/
+theorem reserveC_min_4096 (h : Nat) : reserveC (min h 4096) = .ok () :=
+  reserveC_of_lt (Nat.lt_of_le_of_lt (Nat.min_le_right h 4096) (by decide))
+
+theorem reserveC_bind_of_lt {α : Type} {n : Nat} (x : R α) (h : n < capLimit) :
+    (reserveC n >>= fun _ => x) = x := by rw [reserveC_of_lt h]; rfl
+
+theorem reserveC_bind_of_ge {α : Type} {n : Nat} (x : R α) (h : capLimit ≤ n) :
+    (reserveC n >>= fun _ => x) = .error .capacity := by rw [reserveC_of_ge h]; rfl
+
+theorem reserveC_bind_eq_ok {α : Type} {n : Nat} {x : R α} {a : α} :
+    (reserveC n >>= fun _ => x) = .ok a ↔ n < capLimit ∧ x = .ok a := by
+  rcases reserveC_cases n with ⟨h, _⟩ | ⟨h, _⟩
+  · rw [reserveC_bind_of_lt x h]; exact ⟨fun hx => ⟨h, hx⟩, fun hx => hx.2⟩
+  · rw [reserveC_bind_of_ge x h]
+    constructor
+    · intro hx; cases hx
+    · intro hx; omega
+
 end PQ
